@@ -244,6 +244,7 @@ class CallMixin:
                 exc = Obj("builtins.Exception", args=(f"from {name}",), name=f"exc@{name}")
                 self.effect("raise", node, fr, value=exc, implicit=True, from_call=name)
                 raise _Raise(exc, node)
+        self.cur_call = data
         model = self.opts.call_models.get(qual) or self.opts.call_models.get(name) or (
             self.opts.call_models.get(("method", method)) if method is not None else None)
         if model is not None:
@@ -270,6 +271,16 @@ class CallMixin:
             return fv.fn(self, args, kwargs, node, fr)
         if qual == "typing.cast" and len(args) == 2:
             return args[1]
+        if qual in ("dataclasses.replace", "copy.copy") and args and isinstance(args[0], Obj) and (qual == "copy.copy" or args[0].cls in self.repo.classes):
+            o = args[0]
+            n = Obj(o.cls, dict(o.fields), o.args, o.kwargs, frozen=o.frozen)
+            for k, v in kwargs.items():
+                n.fields[k] = v
+            return n
+        if qual == "copy.copy" and args and isinstance(args[0], (list, dict, set)):
+            import copy as _c
+
+            return _c.copy(args[0])
         if qual == "itertools.chain":
             out = []
             for a in args:
